@@ -32,7 +32,7 @@ func loopBoundConst(h *ssa.BasicBlock) bool {
 func nia1Eval(fn *ssa.Function) (*core.Exec, []core.AOutcome, error) {
 	ex := core.NewExec()
 	ex.MaxStates = 512
-	ex.SymLoop = func(f *ssa.Function, h *ssa.BasicBlock) bool { return f == fn && !loopBoundConst(h) }
+	ex.SymLoop = func(f *ssa.Function, h *ssa.BasicBlock) bool { return fnPkgPath(f) == pSec && !loopBoundConst(h) }
 	ex.OnCall = func(ev *core.AEvent, m *core.AMem) (core.AVal, bool) {
 		switch {
 		case ev.Callee == pSnow+".InitSnow3g":
